@@ -29,6 +29,18 @@ func c01Corpus(r *Run) []*pipeline.Case {
 	for _, e := range descgen.Curated() {
 		cases = append(cases, caseFrom(e))
 	}
+	// configurations that name only the temporal types the descriptor needs (one of the two, or none)
+	{
+		e := descgen.CuratedByName("k11e") // durations only
+		e.Cfg.TimeType = nil
+		cases = append(cases, caseFrom(descgen.Rename(e, "k11edur")))
+		e = descgen.CuratedByName("k11a") // no temporal field at all
+		e.Cfg.TimeType, e.Cfg.DurationType = nil, nil
+		cases = append(cases, caseFrom(descgen.Rename(e, "k11anone")))
+		e = descgen.CuratedByName("k14") // timestamps only
+		e.Cfg.DurationType = nil
+		cases = append(cases, caseFrom(descgen.Rename(e, "k14time")))
+	}
 	for i, e := range descgen.Curated() {
 		if r.thorough() || i%2 == 0 {
 			c := separate(e, i%4 == 0)
